@@ -376,9 +376,15 @@ func (c *client) sendExecutionResult(runID string, result ExecutionResult) {
 	c.logger.Debugf("Sending results for run ID '%s'", runID)
 	resultEntry, found := c.runningStepResultEntries[runID]
 	if found {
-		// Send the result
-		resultEntry.result = &result
-		resultEntry.condition.Signal()
+		if resultEntry.result == nil {
+			// Send the result
+			resultEntry.result = &result
+			resultEntry.condition.Signal()
+		} else {
+			// The run already has its result; its caller just has not collected it yet. The first one stands: an
+			// error that is broadcast to all runs later on must not replace a result that arrived intact.
+			c.logger.Debugf("Run ID '%s' already has a result; keeping it", runID)
+		}
 	} else {
 		c.logger.Errorf("Step result entry not found for run ID '%s'. This is either a bug in the ATP "+
 			"client, or the plugin erroneously sent a second result.", runID)
